@@ -24,8 +24,15 @@ MUTANTS = [
     M("delimiter-default-bracket", F, 'if end_chr is not None else ")"', 'if end_chr is not None else "]"', "C19-LIN"),
     M("docx-first-omath-only", "sharepoint2text/parsing/extractors/ms_modern/docx_extractor.py", "            for omath in elem.findall(M_OMATH):\n                latex = omml_to_latex(omath)\n                if latex.strip():\n                    parts.append(f\"$${latex}$$\")\n", "            omath = elem.find(M_OMATH)\n            if omath is not None:\n                latex = omml_to_latex(omath)\n                if latex.strip():\n                    parts.append(f\"$${latex}$$\")\n", "C19-LIN"),
     M("pptx-first-omath-only", "sharepoint2text/parsing/extractors/ms_modern/pptx_extractor.py", "        for omath in omath_para.findall(M_OMATH):\n            omath_in_para.add(id(omath))\n            latex = omml_to_latex(omath)\n            if latex.strip():\n                formulas.append((latex, True))\n", "        omath = omath_para.find(M_OMATH)\n        if omath is not None:\n            omath_in_para.add(id(omath))\n            latex = omml_to_latex(omath)\n            if latex.strip():\n                formulas.append((latex, True))\n", "C19-LIN"),
+    Variant("template-helper-drops-command-for-empty-argument", [(F, "def omml_to_latex(omath_element: ET.Element | None) -> str:\n", "def _command(command: str, argument: str) -> str:\n    if not argument.strip():\n        return \"\"\n    return f\"{command}{{{argument}}}\"\n\ndef omml_to_latex(omath_element: ET.Element | None) -> str:\n"), (F, "            return f\"\\\\overline{{{content_text}}}\"\n", "            return _command(\"\\\\overline\", content_text)\n")], "C19-LIN"),
+    Variant("template-helper-unbalanced", [(F, "def omml_to_latex(omath_element: ET.Element | None) -> str:\n", "def _command(command: str, argument: str) -> str:\n    return f\"{command}{{{argument}\"\n\ndef omml_to_latex(omath_element: ET.Element | None) -> str:\n"), (F, "            return f\"\\\\overline{{{content_text}}}\"\n", "            return _command(\"\\\\overline\", content_text)\n")], "C19-BAL"),
+    M("skip-list-names-argument-element", F, '        "rPr",\n        "fPr",', '        "rPr",\n        "fName",\n        "fPr",', "C19-LIN"),
+    M("only-math-namespace-converted", F, '        tag = elem.tag.split("}")[-1]\n', '        if not elem.tag.startswith(M_NS):\n            return ""\n        tag = elem.tag.split("}")[-1]\n', "C19-LIN"),
 ]
 TWINS = [
+    T("non-element-nodes-skipped", F, '        tag = elem.tag.split("}")[-1]\n', '        if not isinstance(elem.tag, str):\n            return ""\n        tag = elem.tag.split("}")[-1]\n'),
+    T("skip-list-one-more-property", F, '        "rPr",\n        "fPr",', '        "rPr",\n        "naryPr",\n        "fPr",'),
+    Variant("template-helper-linear", [(F, "def omml_to_latex(omath_element: ET.Element | None) -> str:\n", "def _command(command: str, argument: str) -> str:\n    return f\"{command}{{{argument}}}\"\n\ndef omml_to_latex(omath_element: ET.Element | None) -> str:\n"), (F, "            return f\"\\\\overline{{{content_text}}}\"\n", "            return _command(\"\\\\overline\", content_text)\n")], None),
     T("omml-default-under-is-none-local", "sharepoint2text/parsing/extractors/util/omml_to_latex.py", "            left = beg_chr.get(f\"{M_NS}val\", \"(\") if beg_chr is not None else \"(\"\n", "            left = \"(\"\n            if beg_chr is not None:\n                left = beg_chr.get(f\"{M_NS}val\", \"(\")\n"),
     T("delimiter-chars-via-own-dpr", F, '            beg_chr = elem.find(f"{M_NS}dPr/{M_NS}begChr")\n            end_chr = elem.find(f"{M_NS}dPr/{M_NS}endChr")\n', '            dpr = elem.find(f"{M_NS}dPr")\n            beg_chr = dpr.find(f"{M_NS}begChr") if dpr is not None else None\n            end_chr = dpr.find(f"{M_NS}endChr") if dpr is not None else None\n'),
     T("rename-operand", F, '            base = elem.find(f"{M_NS}e")\n            sup = elem.find(f"{M_NS}sup")\n            base_text = process_element(base)\n            sup_text = process_element(sup)\n            return f"{base_text}^{{{sup_text}}}"', '            b = elem.find(f"{M_NS}e")\n            s = elem.find(f"{M_NS}sup")\n            bt = process_element(b)\n            st = process_element(s)\n            return f"{bt}^{{{st}}}"'),
